@@ -12,7 +12,8 @@ THEOREMS = [(M, "NQ.C08." + n) for n in [
     "branch_lands_on_expansion", "nongate_order", "scratch_ok", "transpile_simulates_partial",
     "transpile_simulates_final_partial", "pad_is_set", "set_writes_gen",
     "templates_eq_nvdecomp", "expandSound_of_C07", "transpile_simulates_C07_partial",
-    "mov_unknown_emits_ec", "f10_nonQ_register_asserts",
+    "mov_unknown_emits_ec", "f10_nonQ_register_asserts", "sets_only_scratch_gen", "seeded_scratch_registers",
+    "seeded_cache_violates_scratch_ok",
     "f10_counterexample_asserts", "f10_counterexample_stale", "f26_fixed_witness"]]
 TRANSLATORS = ["nv_expand", "nv_decomp"]
 LEVEL_TEXT = (
@@ -188,6 +189,15 @@ def run(ctx):
         oracle("corpus-mov-runtime-ids", w_mov, 3)
         syntactic("corpus", w_mov, False, False)
     syntactic("corpus", w_nonq, False, False)
+    # seeded change C08_0: a cached scratch register re-used after the program started using it
+    w_scr = [H.ins("core.SetInstruction", H.reg(Qb, 0), H.imm(1)), H.ins("core.SetInstruction", H.reg(Qb, 1), H.imm(2)),
+             H.ins("vanilla.CnotInstruction", H.reg(Qb, 0), H.reg(Qb, 1)),
+             H.ins("core.SetInstruction", H.reg(Qb, 2), H.imm(3)), H.ins("vanilla.GateHInstruction", H.reg(Qb, 2)),
+             H.ins("vanilla.CphaseInstruction", H.reg(Qb, 1), H.reg(Qb, 0)),
+             H.ins("vanilla.GateXInstruction", H.reg(Qb, 2))]
+    for dbg in (False, True):
+        oracle("corpus-seeded-scratch", w_scr, 4, debug=dbg)
+        syntactic("corpus", w_scr, dbg, False)
     oracle("corpus-F10-assert", w_assert, 3, _G([(5, 0, 0)]))
     oracle("corpus-F10-stale", w_stale, 3, _G([(6, 0, 0)]))
     # F26 (fixed): branch across a carbon-carbon gate with debug markers
